@@ -10,24 +10,33 @@ def Label.proper (l : Label) : Bool := !l.spurious && !l.isEnv
 /-- "some thread of pdsh can take a (non-spurious) step" -/
 def CanMove (s : St) : Prop := ∃ l, l.proper = true ∧ (step s l).isSome = true
 
+/-- ... and that step is not the signals thread giving way to a pending cancellation request: a thread goes on with
+    its work.  (Which calls of a handler are cancellation points depends on the C library; the progress shown below
+    needs none of them, only sigwait.) -/
+def CanGoOn (s : St) : Prop := ∃ l, l.proper = true ∧ l ≠ .s .die ∧ (step s l).isSome = true
+
+theorem CanGoOn.canMove {s : St} (h : CanGoOn s) : CanMove s := by
+  obtain ⟨l, h1, _, h2⟩ := h; exact ⟨l, h1, h2⟩
+
 theorem w_enabled {s : St} {i : Nat} {a : WAct} {p q : WP} (hx : s.exited = none) (hp : s.ws[i]? = some p)
     (hn : wNext s.g a p (tsAt s i == .canceled) = some q) (hT : a = .lockT → s.thd = .none)
-    (hO : a = .lock → s.own = .none) : CanMove s := by
-  refine ⟨.w i a, by simp [Label.proper, Label.spurious, Label.isEnv], ?_⟩
+    (hO : a = .lock → s.own = .none) : CanGoOn s := by
+  refine ⟨.w i a, by simp [Label.proper, Label.spurious, Label.isEnv], by simp, ?_⟩
   rw [step_of_w hx]
   simp only [wStep, hp, hn]
   rw [if_pos ⟨hT, hO⟩]; rfl
 
-theorem s_enabled {s : St} {a : SAct} (hx : s.exited = none) (h : (sStep s a).isSome = true) : CanMove s :=
-  ⟨.s a, by simp [Label.proper, Label.spurious, Label.isEnv], by rw [step_of_s hx]; exact h⟩
+theorem s_enabled {s : St} {a : SAct} (hx : s.exited = none) (ha : a ≠ .die) (h : (sStep s a).isSome = true) :
+    CanGoOn s :=
+  ⟨.s a, by simp [Label.proper, Label.spurious, Label.isEnv], by simpa using ha, by rw [step_of_s hx]; exact h⟩
 
 theorem d_enabled {s : St} {a : DAct} (hx : s.exited = none) (hsp : (Label.d a).spurious = false)
-    (h : (dStep s a).isSome = true) : CanMove s :=
-  ⟨.d a, by simp [Label.proper, hsp, Label.isEnv], by rw [step_of_d hx]; exact h⟩
+    (h : (dStep s a).isSome = true) : CanGoOn s :=
+  ⟨.d a, by simp [Label.proper, hsp, Label.isEnv], by simp, by rw [step_of_d hx]; exact h⟩
 
 theorem g_enabled {s : St} {a : GAct} (hx : s.exited = none) (ha : a ≠ .wake) (h : (gStep s a).isSome = true) :
-    CanMove s :=
-  ⟨.g a, by cases a <;> simp_all [Label.proper, Label.spurious, Label.isEnv], by rw [step_of_wd hx]; exact h⟩
+    CanGoOn s :=
+  ⟨.g a, by cases a <;> simp_all [Label.proper, Label.spurious, Label.isEnv], by simp, by rw [step_of_wd hx]; exact h⟩
 
 /-! ## `_fwd_signal`: there is a next READING slot to signal, or the scan is over -/
 
@@ -54,7 +63,7 @@ theorem fwd_or_done (ts : List TS) (k : Nat) : ∀ m,
 /-! ## whoever holds a mutex can move -/
 
 theorem thd_holder_moves {s : St} (h : Inv s) (hx : s.exited = none) (hthd : s.thd ≠ .none)
-    (hnc : s.spc ≠ .cancelled) : CanMove s := by
+    (hnc : s.spc ≠ .cancelled) : CanGoOn s := by
   cases ho : s.thd with
   | none => exact absurd ho hthd
   | d => exact absurd ho h.m.thdD
@@ -75,17 +84,17 @@ theorem thd_holder_moves {s : St} (h : Inv s) (hx : s.exited = none) (hthd : s.t
     · cases hsp : s.spc <;> rw [hsp] at hs <;> simp [SPC.holdsT] at hs
       · rename_i k
         cases k with
-        | zero => exact s_enabled (a := .unlockT) hx (by simp [sStep, hsp])
-        | succ k => exact s_enabled (a := .time s.now) hx (by simp [sStep, hsp])
+        | zero => exact s_enabled (a := .unlockT) hx (by simp) (by simp [sStep, hsp])
+        | succ k => exact s_enabled (a := .time s.now) hx (by simp) (by simp [sStep, hsp])
       · rename_i k
         rcases fwd_or_done s.ts k s.ts.length with hn | ⟨j, hlt, hk, hr, hn⟩
-        · exact s_enabled (a := .unlockT) hx (by simp [sStep, hsp, hn])
+        · exact s_enabled (a := .unlockT) hx (by simp) (by simp [sStep, hsp, hn])
         · have hg : s.ts[j]? = some TS.reading := getElem?_of_getD' hr (by simp)
-          exact s_enabled (a := .fwd j) hx (by simp [sStep, hsp, hk, hg, hn])
+          exact s_enabled (a := .fwd j) hx (by simp) (by simp [sStep, hsp, hk, hg, hn])
     · exact absurd hs hnc
 
 theorem own_holder_moves {s : St} (h : Inv s) (hx : s.exited = none) (hown : s.own ≠ .none) (hnd : s.own ≠ .d)
-    (hnc : s.spc ≠ .cancelled) : CanMove s := by
+    (hnc : s.spc ≠ .cancelled) : CanGoOn s := by
   cases ho : s.own with
   | none => exact absurd ho hown
   | d => exact absurd ho hnd
@@ -97,16 +106,16 @@ theorem own_holder_moves {s : St} (h : Inv s) (hx : s.exited = none) (hown : s.o
   | g => exact absurd ho h.w.ownG
   | s =>
     rcases h.m.ownS2 ho with hs | hs
-    · exact s_enabled (a := .unlock) hx (by simp [sStep, hs])
+    · exact s_enabled (a := .unlock) hx (by simp) (by simp [sStep, hs])
     · exact absurd hs hnc
 
 /-- a worker that is counted in `threadcount` or holds its mutex exists, and the dispatcher does not hold the
     mutex: then some thread can move -/
 theorem worker_can_move {s : St} (h : Inv s) (hx : s.exited = none) (hnd : s.own ≠ .d) (hnc : s.spc ≠ .cancelled)
-    (hex : ∃ j, counted (pc s j) = true ∨ holdsW (pc s j) = true) : CanMove s := by
+    (hex : ∃ j, counted (pc s j) = true ∨ holdsW (pc s j) = true) : CanGoOn s := by
   obtain ⟨j, hj⟩ := hex
   have needT : ∀ {a : WAct} {p q : WP}, s.ws[j]? = some p → wNext s.g a p (tsAt s j == .canceled) = some q →
-      a ≠ .lock → CanMove s := by
+      a ≠ .lock → CanGoOn s := by
     intro a p q hp hn hne
     by_cases ht : s.thd = .none
     · exact w_enabled hx hp hn (fun _ => ht) (fun hc => absurd hc hne)
@@ -135,7 +144,7 @@ theorem worker_can_move {s : St} (h : Inv s) (hx : s.exited = none) (hnd : s.own
 
 /-- the dispatcher wants threadcount_mutex: it is free, or its holder can move -/
 theorem free_or_move {s : St} (h : Inv s) (hx : s.exited = none) (hnh : s.dpc.holds = false)
-    (hnc : s.spc ≠ .cancelled) : s.own = .none ∨ CanMove s := by
+    (hnc : s.spc ≠ .cancelled) : s.own = .none ∨ CanGoOn s := by
   by_cases ho : s.own = .none
   · exact Or.inl ho
   · right
@@ -149,18 +158,24 @@ theorem not_cancelled {s : St} (h : Inv s) (h1 : s.dpc ≠ .finishing) (h2 : s.d
   · exact h2 h
 
 /-- before the signals thread exists: create the watchdog (repaired shutdown only), then the signals thread -/
-theorem startup {s : St} (hx : s.exited = none) (hoff : s.spc = .off) : CanMove s := by
+theorem startup {s : St} (hx : s.exited = none) (hoff : s.spc = .off) : CanGoOn s := by
   by_cases hg : s.sw = true ∧ s.gpc = .off
   · exact d_enabled (a := .createG) hx rfl (by simp [dStep, hg.1, hg.2, hoff])
   · exact d_enabled (a := .createS) hx rfl (by simp only [dStep, hoff]; rw [if_neg hg]; rfl)
 
 /-- dsh() is finishing: stop the watchdog (repaired shutdown only; it may have to finish its scan, for which it
-    may need thd_mutex, which the signals thread — still alive — releases), then the signals thread, then return -/
-theorem finishing_moves {s : St} (h : Inv s) (hx : s.exited = none) (hd : s.dpc = .finishing) : CanMove s := by
+    may need thd_mutex, which the signals thread — still alive — releases), then ask the signals thread to end.  The
+    request is deferred: a handler that is running goes on — every one of its steps is possible, or whoever holds the
+    mutex it needs can move — until the thread is back in sigwait, where it ends; then dsh() returns -/
+theorem finishing_moves {s : St} (h : Inv s) (hx : s.exited = none) (hd : s.dpc = .finishing) :
+    CanGoOn s ∨ (s.scan = true ∧ s.spc = .waiting) := by
+  have hnh : s.dpc.holds = false := by rw [hd]; rfl
+  have hnd : s.own ≠ .d := by intro hc; have := h.m.ownD.mp hc; rw [hnh] at this; cases this
   by_cases hc : s.spc = .cancelled
-  · exact d_enabled (a := .ret) hx rfl (by simp [dStep, hd, hc])
+  · exact Or.inl (d_enabled (a := .ret) hx rfl (by simp [dStep, hd, hc, h.c.cs hc]))
   by_cases hj : s.sw = true ∧ s.gjoin = false
-  · obtain ⟨hsw, hgj⟩ := hj
+  · left
+    obtain ⟨hsw, hgj⟩ := hj
     cases hcan : s.gcan with
     | false => exact d_enabled (a := .cancelG) hx rfl (by simp [dStep, hd, hsw, hcan])
     | true =>
@@ -174,13 +189,60 @@ theorem finishing_moves {s : St} (h : Inv s) (hx : s.exited = none) (hd : s.dpc 
         by_cases ht : s.thd = .none
         · exact g_enabled (a := .lockT) hx (by simp) (by simp [gStep, hg, ht])
         · exact thd_holder_moves h hx ht hc
-  · exact d_enabled (a := .cancelS) hx rfl (by
+  have hoff : s.spc ≠ .off := by
+    intro ho; rcases h.w.soff ho with h' | h' <;> rw [hd] at h' <;> cases h'
+  cases hsc : s.scan with
+  | false =>
+    exact Or.inl (d_enabled (a := .cancelS) hx rfl (by
       simp only [dStep, hd]
-      rw [if_neg (by intro hh; rcases hh with hh | hh; exact hc hh; exact hj hh)]; rfl)
+      rw [if_neg (by
+        intro hh; rcases hh with hh | hh
+        · rw [hsc] at hh; cases hh
+        · exact hj hh)]; rfl))
+  | true =>
+    cases hsp : s.spc with
+    | waiting => exact Or.inr ⟨rfl, rfl⟩
+    | off => exact absurd hsp hoff
+    | cancelled => exact absurd hsp hc
+    | intT => exact Or.inl (s_enabled (a := .time s.now) hx (by simp) (by simp [sStep, hsp]))
+    | intT2 => exact Or.inl (s_enabled (a := .time s.now) hx (by simp) (by simp [sStep, hsp]))
+    | tstpT => exact Or.inl (s_enabled (a := .time s.now) hx (by simp) (by simp [sStep, hsp]))
+    | listLock =>
+      left
+      by_cases ht : s.thd = .none
+      · exact s_enabled (a := .lockT) hx (by simp) (by simp [sStep, hsp, ht])
+      · exact thd_holder_moves h hx ht hc
+    | abLock =>
+      left
+      by_cases ht : s.thd = .none
+      · exact s_enabled (a := .lockT) hx (by simp) (by simp [sStep, hsp, ht])
+      · exact thd_holder_moves h hx ht hc
+    | listing k =>
+      left
+      cases k with
+      | zero => exact s_enabled (a := .unlockT) hx (by simp) (by simp [sStep, hsp])
+      | succ k => exact s_enabled (a := .time s.now) hx (by simp) (by simp [sStep, hsp])
+    | fwding k =>
+      left
+      rcases fwd_or_done s.ts k s.ts.length with hn | ⟨j, hlt, hk, hr, hn⟩
+      · exact s_enabled (a := .unlockT) hx (by simp) (by simp [sStep, hsp, hn])
+      · have hg : s.ts[j]? = some TS.reading := getElem?_of_getD' hr (by simp)
+        exact s_enabled (a := .fwd j) hx (by simp) (by simp [sStep, hsp, hk, hg, hn])
+    | exiting => exact Or.inl (s_enabled (a := .exit 1) hx (by simp) (by simp [sStep, hsp]))
+    | stopping => exact Or.inl (s_enabled (a := .stop) hx (by simp) (by simp [sStep, hsp]))
+    | cancLock =>
+      left
+      by_cases ho : s.own = .none
+      · exact s_enabled (a := .lock) hx (by simp) (by simp [sStep, hsp, ho])
+      · exact own_holder_moves h hx ho hnd hc
+    | cancUnlock => exact Or.inl (s_enabled (a := .unlock) hx (by simp) (by simp [sStep, hsp]))
 
 theorem progress_inv {s : St} (h : Inv s) (hf : 0 < s.f) (hx : s.exited = none) (hnf : s.dpc ≠ .returned) :
-    CanMove s := by
-  have parkedCase : s.dpc.holds = false → s.dpc ≠ .finishing → 0 < s.tc + s.ws.countP isLocked → CanMove s := by
+    CanGoOn s ∨ (s.scan = true ∧ s.spc = .waiting) := by
+  by_cases hfin : s.dpc = .finishing
+  · exact finishing_moves h hx hfin
+  left
+  have parkedCase : s.dpc.holds = false → s.dpc ≠ .finishing → 0 < s.tc + s.ws.countP isLocked → CanGoOn s := by
     intro hnh hnfin hpos
     have hnc := not_cancelled h hnfin hnf
     apply worker_can_move h hx _ hnc
@@ -235,7 +297,17 @@ theorem progress_inv {s : St} (h : Inv s) (hf : 0 < s.f) (hx : s.exited = none) 
     · exact d_enabled (a := .relock) hx rfl (by simp [dStep, hd, ho, drainTest])
     · exact hm
   | dunlock => exact d_enabled (a := .unlock) hx rfl (by simp [dStep, hd])
-  | finishing => exact finishing_moves h hx hd
+  | finishing => exact absurd hd hfin
   | returned => exact absurd hd hnf
+
+/-- in sigwait with the cancellation pending the signals thread ends -/
+theorem die_enabled {s : St} (hx : s.exited = none) (hsc : s.scan = true) (hw : s.spc = .waiting) : CanMove s :=
+  ⟨.s .die, by simp [Label.proper, Label.spurious, Label.isEnv], by rw [step_of_s hx]; simp [sStep, hsc, hw]⟩
+
+theorem progress_move {s : St} (h : Inv s) (hf : 0 < s.f) (hx : s.exited = none) (hnf : s.dpc ≠ .returned) :
+    CanMove s := by
+  rcases progress_inv h hf hx hnf with hm | ⟨h1, h2⟩
+  · exact hm.canMove
+  · exact die_enabled hx h1 h2
 
 end PdshVerif.Dsh.Sig
